@@ -170,6 +170,57 @@ fn random_case(seed: u64, lane: Lane, trace: bool) -> CaseOut {
     run_judged(&h, trace)
 }
 
+/// Rate-capped senders under a driver that keeps polling while the pacer holds them back (a driver
+/// "that polls more often than strictly necessary"): small transfers, every pacing wait sampled
+/// thousands of times.
+fn busy_poll_case(seed: u64, trace: bool) -> CaseOut {
+    let mut k = knobs(seed, Lane::Null);
+    k.max_stream_len = 6 * 1024;
+    k.max_streams = 2;
+    k.n_clients = 1;
+    k.migration = false;
+    k.ops = false;
+    // (no faults and no starved windows: what limits these transfers is the pacer alone, so a
+    // minute of virtual time is a generous bound)
+    k.faults = false;
+    let mut h = Honest::random(seed, &k);
+    h.retry_lifetime_ms = 10_000_000;
+    let mut r = Rng::new(seed ^ 0xB5);
+    h.net.fault_until_ns = 0;
+    h.net.latency_ns = h.net.latency_ns.min(50_000_000);
+    for t in h.cli_t.iter_mut().chain([&mut h.srv_t]) {
+        t.max_bps = Some(*r.pick(&[20_000, 100_000, 1_000_000]));
+        t.pad_to_mtu = false;
+        t.send_window = t.send_window.max(100_000);
+        t.stream_rwnd = t.stream_rwnd.max(20_000);
+        t.rwnd = t.rwnd.max(60_000);
+        if let CcKind::Fixed(w) = t.cc {
+            t.cc = CcKind::Fixed(w.max(6000));
+        }
+    }
+    for a in h.cli_app.iter_mut().chain([&mut h.srv_app]) {
+        a.dgram_count = a.dgram_count.min(5);
+    }
+    h.drv.busy_poll = true;
+    h.drv.extra_poll_pct = 0;
+    // a few kilobytes at 20 kB/s and more: a minute of virtual time is ample (and all a case whose
+    // pacer never lets go again can be given: it is sampled every few microseconds)
+    let cap_ns = 60_000_000_000;
+    let mut ran = run_honest(&h, trace, 8_000_000, cap_ns);
+    if ran.end == RunEnd::TimeCap && !crate::check::common::any_lost(&ran.w) {
+        let d = diag(&ran.w);
+        ran.w.led.violate("C02", format!("[busy-poll] no completion within {} s of virtual time although the driver serviced every deadline (and polled in between);{d} | {}", cap_ns / 1_000_000_000, h.summary()));
+        ran.end = RunEnd::Done;
+    }
+    judge(&h, &mut ran);
+    let mut out = base_out(&h, &mut ran, trace);
+    out.nontrivial = out.cnt.get("drv.busy_polls") > 0;
+    if ran.end == RunEnd::StepCap {
+        out.inconclusive = Some(format!("step cap before completion ({})", h.summary()));
+    }
+    out
+}
+
 fn run_judged(h: &Honest, trace: bool) -> CaseOut {
     let mut ran = run_honest(h, trace, 60_000, T_F + BOUND_NS);
     judge(h, &mut ran);
@@ -226,6 +277,8 @@ pub fn run(ctx: &Ctx) -> i32 {
     run_group(ctx, &mut rep, &g, |idx, _, trace| enum_case(idx, kb, Lane::Null, trace));
     let g = Group { name: "random-null", cases: ctx.tier.pick(1500, 120_000), budget_s: ctx.tier.pick(45.0, 720.0), exhaustive: false };
     run_group(ctx, &mut rep, &g, |_, seed, trace| random_case(seed, Lane::Null, trace));
+    let g = Group { name: "busy-poll", cases: ctx.tier.pick(200, 20_000), budget_s: ctx.tier.pick(20.0, 200.0), exhaustive: false };
+    run_group(ctx, &mut rep, &g, |_, seed, trace| busy_poll_case(seed, trace));
     #[cfg(feature = "real")]
     {
         let g = Group { name: "random-real", cases: ctx.tier.pick(100, 5000), budget_s: ctx.tier.pick(20.0, 180.0), exhaustive: false };
@@ -236,7 +289,7 @@ pub fn run(ctx: &Ctx) -> i32 {
         &rep,
         Finish {
             level: "fault_enumeration",
-            rule: format!("(1) exhaustive: every subset of the first {kb} datagrams in each direction dropped, x 6 configurations (accept / retry / held incoming; default and random transport configs); (2) seeded random worlds with idle timeout off, faults (loss/dup/reorder/corrupt/CE/MTU) confined to the first 5 s of virtual time, random congestion controllers incl. tiny fixed windows, pacing caps, ack-frequency, MTU discovery, keep-alive, stream limits 0-then-raised, run-time window/limit changes, pings, key updates, rebinding, early (pre-handshake) writes, CID rotation, random driver schedules. Applications are strictly event-driven. Non-trivial = handshake ran; distinct = coverage fingerprint (enumerated cases: the (config, direction, subset) triple)."),
+            rule: format!("(1) exhaustive: every subset of the first {kb} datagrams in each direction dropped, x 6 configurations (accept / retry / held incoming; default and random transport configs); (2) seeded random worlds with idle timeout off, faults (loss/dup/reorder/corrupt/CE/MTU) confined to the first 5 s of virtual time, random congestion controllers incl. tiny fixed windows, pacing caps, ack-frequency, MTU discovery, keep-alive, stream limits 0-then-raised, run-time window/limit changes, pings, key updates, rebinding, early (pre-handshake) writes, CID rotation, random driver schedules. (3) busy-poll: small transfers between rate-capped peers (20 kB/s - 1 MB/s) under a driver that, besides servicing every deadline, polls a connection again and again while its pacing timer is armed, at intervals in which less than half a byte of pacing budget accrues. Applications are strictly event-driven. Non-trivial = handshake ran; distinct = coverage fingerprint (enumerated cases: the (config, direction, subset) triple)."),
             assumptions: vec![
                 "liveness is restated as bounded progress: completion within 3600 s of virtual time after faults stop, plus the sound stuck oracle (no timer, nothing in flight, incomplete)".into(),
                 "a run that exceeds the step cap is inconclusive, not a violation".into(),
